@@ -68,10 +68,18 @@ def run(chk):
             if style == 'bytes' and len(raw) > 260:
                 style = 'few'
             d['segments'] = style
+            seen = [len(u_.got) for u_ in conv.sim.upstreams]
             for piece in scen.pieces(raw, rnd, style):
                 conv.step(('c', piece))
-            conv.step(('u', max(1, len(conv.sim.upstreams)), RESP))       # the origin the request went to answers (a follow-up request
-            #                                                               naming another origin goes over a new upstream connection)
+            # the origin the request went to answers (a follow-up request naming another origin goes over a new upstream connection);
+            # a HEAD request is answered with the header block only, as origins do
+            # (an origin only answers a request it has received: the connection on which new bytes arrived)
+            grew = [n + 1 for n, u_ in enumerate(conv.sim.upstreams) if len(u_.got) > (seen[n] if n < len(seen) else 0)]
+            if grew:
+                answer = RESP[:-2] if raw.startswith(b'HEAD ') else rnd.choice([RESP, RESP, RESP, b'HTTP/1.1 204 No Content\r\n\r\n',
+                                                                             b'HTTP/1.1 304 Not Modified\r\nContent-Length: 7\r\nETag: "e"\r\n\r\n',
+                                                                             b'HTTP/1.1 100 Continue\r\n\r\n' + RESP])
+                conv.step(('u', grew[-1], answer))
             reqs.append(raw)
             ds.append(d)
         t = conv.transcript()
@@ -79,7 +87,8 @@ def run(chk):
         cid = len(cases) + 1
         cases.append({'id': cid, 'reqs': [list(r) for r in reqs], 'ugot': list(ugot), 'disabled': [list(d) for d in disabled]})
         descs[cid] = {'mode': 'threaded' if threaded else 'threadless', 'auth': bool(auth), 'disabled': [d.decode() for d in disabled], 'requests': ds,
-                      'client_got_responses': t['clients'][0]['got'].count(b'HTTP/1.1 200 OK'), 'loop_alive': t['alive']}
+                      'client_got_responses': t['clients'][0]['got'].count(b'HTTP/1.1 200 OK'), 'loop_alive': t['alive'],
+                      'upstream_connections': len(t['upstreams'])}
         if not t['alive']:
             chk.notes.append('executor loop died in conversation %d: %s (reported under C05)' % (cid, t['loop_error']))
     results, rej = tlc.run_sharded('TraceForward', 'TraceForward.cfg', cases, shards=16, timeout=1200)
